@@ -40,7 +40,7 @@ MANIFEST = dict(
          "solves on ONE solver object with setters in between must satisfy the same predicates and info()/num_iterations()/"
          "eigenvalues() must describe the last solve (keys <mode>:reuse:<predicate>).")
 
-SYMM_FAMS = ["dd", "dd", "dd", "ddweak", "ddflat", "rand", "neardeg", "block", "exactdeg"]
+SYMM_FAMS = ["dd", "dd", "dd", "ddweak", "ddflat", "rand", "neardeg", "block", "exactdeg", "intruder"]
 HAM_FAMS = ["bse", "bse", "bsehard"]
 PROMISED_KEYS = ("promised-success", "promised-lowest")
 
@@ -387,10 +387,24 @@ def run(ctx):
     ctx.extra["option_vectors_exported"] = len(vectors)
     ctx.extra["option_strata"] = len(set((v["corr"], v["upd"], v["tol"], v["mk"]) for v in chosen))
 
+    # dedicated batch for the `intruder` family (non-monotone convergence: the lowest root enters the Ritz
+    # spectrum late and shifts already converged roots): every correction x update x tolerance, neigen 1-4
+    istrata = collections.defaultdict(list)
+    for v in vectors:
+        if (v["mode"] == "SYMM" and v["neigen"] <= 4 and v["itermax"] >= 50 and v["sk"] == "default"
+                and 16 <= v["N"] <= (60 if quick else 200)):
+            istrata[(v["corr"], v["upd"], v["tol"])].append(v)
+    forced = {}
+    for key in sorted(istrata):
+        for v in rnd.choices(istrata[key], k=3 if quick else 25):
+            forced[len(chosen)] = "intruder"
+            chosen.append(v)
+    ctx.extra["intruder_solves"] = len(forced)
+
     # ---- 3. run the real solver ----------------------------------------------------------------------------------------
     items, meta = [], {}
     for sid, v in enumerate(chosen, 1):
-        fam = rnd.choice(SYMM_FAMS if v["mode"] == "SYMM" else HAM_FAMS)
+        fam = forced.get(sid - 1) or rnd.choice(SYMM_FAMS if v["mode"] == "SYMM" else HAM_FAMS)
         var, seed, mf = rnd.randrange(108), rnd.randrange(1, 1 << 30), rnd.randrange(2)
         cmd = _cmd(sid, v, fam, var, seed, mf)
         items.append((sid, [cmd]))
